@@ -115,6 +115,11 @@ fn baseline(b: u64) -> Plan {
             // SRV, garbage, empty, too short), or both alternating
             let payload = ["valid", "wrong_srv", "mixed", "garbage", "empty", "short"][((b / 7 + b / 42) % 6) as usize];
             plan.params.insert(format!("flood_{}", payload), 1);
+            if payload != "valid" {
+                // turning a datagram away is several times cheaper than answering one: an even
+                // slower node, so that the queue does not empty between two unanswerable arrivals
+                plan.world.cost_scale = 600_000;
+            }
             plan.step(20_000, Action::Flood { sock: 0, proto: if rng.chance(1, 2) { P::Classic } else { P::Ietf }, interval_ns: 200_000, count: 20_000, payload: Some(payload.into()) });
         }
     }
